@@ -68,6 +68,7 @@ func (g *Gen) GenFunc(key string) (res *FnResult) {
 		c.assume(st, c.wellFormed(n, p.Type(), st.next))
 		args = append(args, fr0.mkVal(n, p.Type()))
 	}
+	c.assumeConstMaps(st)
 	// requires
 	path := key
 	if con != nil {
